@@ -4,6 +4,8 @@ C18 — Counters, time-averaged occupancy and cycle times are truthful.
 -/
 import FsVerif.Proofs.PosExtra
 import FsVerif.Proofs.BufExtra
+import FsVerif.Proofs.Machine
+import FsVerif.Proofs.SourceSink
 namespace FsVerif.Props.C18
 open FsVerif PosStore
 
@@ -42,5 +44,25 @@ theorem buf_level_integral {s : BufStore} (h : BufStore.ReachD s) :
 theorem buf_final {s : BufStore} (h : BufStore.ReachD s) : (s.step .final).1.wsum = s.area := by
   obtain ⟨h1, h2, h3⟩ := buf_level_integral h
   simp [BufStore.step, BufStore.final, BufStore.updLevel]; exact h3
+
+/-! ### node counters -/
+
+/-- Source: generated = items created; discarded = items dropped. -/
+theorem source_counters (cfg : SrcCfg) (acts : List SrcState.Act) :
+    (SrcState.runActs (SrcState.init cfg) acts).generated = (SrcState.runActs (SrcState.init cfg) acts).created.length ∧
+    (SrcState.runActs (SrcState.init cfg) acts).discarded = (SrcState.runActs (SrcState.init cfg) acts).dropped.length :=
+  ⟨(SrcState.reach_sinv cfg acts).gen, (SrcState.reach_sinv cfg acts).disc⟩
+
+/-- Machine: discarded = items dropped (processed is compared activation by activation in lock-step). -/
+theorem machine_counters (cfg : MacCfg) (acts : List MacState.Act) :
+    (MacState.runActs (MacState.init cfg) acts).discarded = (MacState.runActs (MacState.init cfg) acts).dropped.length :=
+  (MacState.reach_minv cfg acts).disc
+
+/-- Sink: received = items absorbed; total cycle time = Σ (reception time − creation stamp). -/
+theorem sink_counters (n : Nat) (acts : List SinkState.Act) :
+    (SinkState.runActs (SinkState.init n) acts).received = (SinkState.runActs (SinkState.init n) acts).got.length ∧
+    (SinkState.runActs (SinkState.init n) acts).cycle =
+      ((SinkState.runActs (SinkState.init n) acts).gotAt.map (fun p => p.1 - p.2)).sum :=
+  ⟨(SinkState.reach_kinv n acts).recv, (SinkState.reach_kinv n acts).cyc⟩
 
 end FsVerif.Props.C18
